@@ -353,14 +353,16 @@ def immw_rule(ctx: Ctx) -> None:
     r.floor(7)
 
 
-def map_rule(ctx: Ctx, rid: str = "R01.map") -> dict:
+def map_rule(ctx: Ctx, rid: str = "R01.map", printed: bool = True) -> dict:
     m = ctx.model
     imap = riscv_map(ctx)
     r = ctx.rule(rid, "instruction_map: key = constructor mnemonic; own behavior()")
     seen = set()
     for k, c in sorted(imap.items()):
         mn = ctor_mnemonic(ctx, c)
-        ok = mn == k and c not in seen
+        # which class a key denotes is semantics (R01.sem decides the class's behaviour against the key's ISA row);
+        # that the class *prints* the key is C14's clause
+        ok = (mn == k or not printed) and c not in seen
         seen.add(c)
         r.check(ok, f"instruction_map[{k}]", c.loc(), f"instruction_map['{k}'] is {c.name}, whose constructor says mnemonic={mn!r}")
         if k not in OUT_OF_SCOPE:
@@ -537,11 +539,13 @@ def ecall_rule(ctx: Ctx) -> None:
     default_raises = False
     for c in mt.cases:
         pat = c.pattern
-        if isinstance(pat, ast.MatchValue):
-            k = const_int(pat.value)
-            codes[k] = c
-        elif isinstance(pat, ast.MatchAs) and pat.pattern is None:
-            default_raises = any(isinstance(n, ast.Raise) for n in c.body)
+        pats = pat.patterns if isinstance(pat, ast.MatchOr) else [pat]
+        for p1 in pats:
+            if isinstance(p1, ast.MatchValue):
+                k = const_int(p1.value)
+                codes[k] = c
+            elif isinstance(p1, ast.MatchAs) and p1.pattern is None:
+                default_raises = any(isinstance(n, ast.Raise) for n in c.body)
     r.check(set(codes) == doc, "process_ecall|codes", f.loc(mt),
             f"implemented service codes {sorted(codes)} != documented table {sorted(doc)}")
     r.check(default_raises, "process_ecall|default", f.loc(mt), "an unknown service code does not raise")
@@ -598,7 +602,7 @@ def run(ctx: Ctx) -> None:
     x0_rule(ctx)
     wrap_rule(ctx)
     immw_rule(ctx)
-    imap = map_rule(ctx)
+    imap = map_rule(ctx, printed=False)
     sem_rule(ctx, imap)
     alias_rule(ctx, imap)
     pcadv_rule(ctx, imap)
